@@ -7,6 +7,7 @@ the exhaustive bounds of IterProgram / SqlProgram.
 from __future__ import annotations
 
 import json
+import os
 import random
 import time
 
@@ -205,6 +206,69 @@ def worker(seeds, ctx):
     return out
 
 
+def worker_multi(seeds, ctx):
+    """Deep random programs over TWO iteration engines with transfers, materializations and random
+    preferred-engine options (backtracking) on every operation; executed by the iteration engine,
+    which follows iteration->iteration transfers; judged by TLC against the naive semantics (C03)."""
+    from lsst.daf.relation import EngineError, iteration
+    from lsst.daf.relation.iteration import RowSequence
+
+    out = {"n": 0, "nontrivial": 0, "violations": [], "counters": {}, "samples": [], "events": [], "n_drift": 0, "drift": [], "known": {}}
+    if "it2" not in _st:
+        _st["it2"] = iteration.Engine(name="it2")
+    it1, _ = _engines()
+    it2 = _st["it2"]
+    cols = ("a", "b", "c")
+    for s in seeds:
+        rng = random.Random(int(s) + 999983)
+        rows = rrows(rng)
+        ops = rprogram(rng)
+        case = {"seed": int(s), "l1": rows, "steps": []}
+        out["n"] += 1
+        rel = it1.make_leaf(build.tags(cols), RowSequence(build.rows(rows)), name="T1")
+        applied = []
+        seen_dedup = False
+        n_mat = 0
+        try:
+            for o in ops:
+                r = rng.random()
+                if r < 0.25:
+                    dest = rng.choice([it1, it2])
+                    rel = rel.transferred_to(dest)
+                    case["steps"].append({"xfer": dest.name})
+                elif r < 0.32 and n_mat < 2:
+                    n_mat += 1
+                    rel = rel.materialized(f"m{n_mat}")
+                    case["steps"].append({"mat": n_mat})
+                kw = {}
+                # open finding F2: a projection backtracked through a deduplication - not generated here
+                if rng.random() < 0.6 and not (o["o"] == "proj" and seen_dedup):
+                    kw = {"preferred_engine": rng.choice([it1, it2]), "backtrack": rng.random() < 0.8,
+                          "transfer": rng.random() < 0.4, "require_preferred_engine": rng.random() < 0.3}
+                try:
+                    rel = build.unary_op(o).apply(rel, **kw)
+                except EngineError:
+                    if kw.get("require_preferred_engine") and not kw.get("transfer"):
+                        case["steps"].append({"refused": o["o"]})
+                        break          # documented refusal; later operations may depend on this one, so the program ends here
+                    raise
+                applied.append(o)
+                seen_dedup = seen_dedup or o["o"] == "dedup"
+                case["steps"].append({"op": o, "opts": {k: (v.name if hasattr(v, "name") else v) for k, v in kw.items()}})
+            got = project.rows(rel.engine.execute(rel))
+        except Exception as exc:  # noqa: BLE001
+            out["violations"].append({"properties": ["C03", "C08"], "family": "deep", "case": case,
+                                      "what": f"two iteration engines: a valid random program with preferred-engine options raised {type(exc).__name__}: {str(exc)[:200]}"})
+            continue
+        out["events"].append({"l1": rows, "cols": list(cols), "ops": applied, "iter": got, "nosql": True, "sqlf": [], "sqlr": [],
+                              "tree": {"k": "leaf", "id": "T1", "eng": "sql", "cols": list(cols), "min": 0, "max": -1}, "case": case})
+        if any("opts" in st and st["opts"] for st in case["steps"]):
+            out["nontrivial"] += 1
+        if len(out["samples"]) < 1:
+            out["samples"].append({"steps": case["steps"][:6], "rows": got[:3]})
+    return out
+
+
 CLAUSES = {"iter": ["C01", "C05"], "sqlbag": ["C02"], "sqllist": ["C11"], "cols": ["C06", "C01", "C02"], "wf": ["C14"]}
 
 
@@ -232,4 +296,26 @@ def run(tier: str, seed: int) -> list[Part]:
                                             "sqlbag/sqllist: SQLite rows differ although the result is determined; cols: wrong row keys)",
                                     "observed": {k: v["event"].get(k) for k in ("iter", "sqlf", "sqlr")}})
     part.wall_s = time.time() - t0
-    return [part]
+    if os.environ.get("VERIF_FOCUS", "") not in ("", "C03", "C15", "C14"):
+        return [part]
+    # ---- two iteration engines with backtracking options
+    t0 = time.time()
+    part2 = Part(name="deep-random-multi-iteration", cfg="TraceProgram", states=1, transitions=1, exhaustive=False)
+    seeds = [str(seed * 104729 + 17 * i + 3) for i in range(n)]
+    outs = parallel_replay(worker_multi, seeds, chunk=100)
+    merge_worker_outputs(part2, outs)
+    events = [ev for o in outs for ev in o.get("events", [])]
+    cases = [ev.pop("case") for ev in events]
+    verdicts = tracecheck.validate("TraceProgram.tla", events, batch=3000)
+    part2.traces = len(events)
+    part2.replayed = 0
+    for v in verdicts:
+        for clause, ok in v["v"].items():
+            if clause == "det" or ok:
+                continue
+            part2.violations.append({"properties": ["C03"], "family": "deep", "case": cases[v["id"]],
+                                     "what": "TLC (TraceProgram) rejects the rows of a deep random program built with preferred-engine options across two "
+                                             f"iteration engines: clause '{clause}' (rows differ from applying every operation at the root)",
+                                     "observed": v["event"].get("iter")})
+    part2.wall_s = time.time() - t0
+    return [part2] if os.environ.get("VERIF_FOCUS", "") in ("C03", "C15", "C14") else [part, part2]
